@@ -278,11 +278,9 @@ func TestVerifC14Records(t *testing.T) {
 	n := vfEnvInt("VERIF_N", 100)
 	only := zzc14.Only(1, vfOnly())
 	cs := vfNewCases("Run_C14", 50)
-	curComp, curDesc := "CProvMgr", map[string]any{}
+	curDesc := map[string]any{}
 	zzc14.OnHang(func(label, stacks string) {
-		idx := cs.Add(zzc14.HangTerm(curComp), curDesc, "hang")
-		cs.Fail(idx, "the case never settled (goroutines blocked outside synctest's view): "+label, stacks)
-		_ = cs.Flush()
+		zzc14.WriteHang(vfOutDir(), label, curDesc, stacks)
 	})
 	root := vfNewRand(seed)
 	for i := 0; i < n; i++ {
@@ -294,7 +292,7 @@ func TestVerifC14Records(t *testing.T) {
 		comp := map[string]string{"pm": "CProvMgr", "vs": "CValueStore"}[c.kind]
 		desc := map[string]any{"case": zzc14.CaseID(1, i), "seed": seed, "pkg": "records", "comp": c.kind, "ctor": c.ctor, "ops": c.ops, "closeAt": c.closeAt, "closeOp1": c.closeOp1, "closeDelay": c.closeDelay,
 			"concurrent2": c.conc2, "strategy": c.strat, "interval_s": c.interval.Seconds(), "validity_s": c.validity.Seconds(), "startGC": c.startGC, "prefill": c.prefill, "warm": c.warm}
-		curComp, curDesc = comp, desc
+		curDesc = desc
 		tr := &zzc14.Trace{}
 		var plan *zzc14.Plan
 		var note string
